@@ -3,7 +3,10 @@ package props
 import (
 	"fmt"
 	"go/ast"
+	"go/constant"
 	"go/token"
+	"go/types"
+	"golang.org/x/tools/go/packages"
 	"strings"
 
 	"verif/checker/core"
@@ -102,8 +105,16 @@ func c13keyKinds(c *core.Check) {
 		}
 		sw := firstSwitchOn(fd, "Category")
 		if sw == nil {
-			c.Unknown("M5-key-kind-agreement", golangRel+"."+fn, c.Prog.Rel(fd.Pos()), "predicate is not a switch over the category")
-			return
+			// a single boolean expression over the category: evaluate it for every category constant
+			cats, ok := evalCategoryPredicate(c, gpk, fd)
+			if !ok {
+				c.Unknown("M5-key-kind-agreement", golangRel+"."+fn, c.Prog.Rel(fd.Pos()), "predicate is neither a switch over the category nor a single comparison expression")
+				return
+			}
+			for _, n := range cats {
+				gen[n] = kind
+			}
+			continue
 		}
 		arms, _ := switchArms(gpk.TypesInfo, sw)
 		for _, a := range arms {
@@ -691,4 +702,81 @@ func c13propagation(agg *aggregate, r *rendered, fd *ast.FuncDecl) {
 			agg.fail("M4-mask-before-write", k, fmt.Sprintf("under [%s]: %s.Write can be reached without handing %s its sub-mask (the assignment is conditional): with no mask in effect the child is written under a stale sub-mask left by an earlier Write", r.R.Valuation, recv, recv))
 		}
 	}
+}
+
+// evalCategoryPredicate evaluates `return <expr>` where expr is built from <x>.Category, parser.Category_* constants,
+// comparisons, &&, || and !, for every category constant; it returns the category names for which it is true.
+func evalCategoryPredicate(c *core.Check, pk *packages.Package, fd *ast.FuncDecl) ([]string, bool) {
+	if len(fd.Body.List) != 1 {
+		return nil, false
+	}
+	rs, ok := fd.Body.List[0].(*ast.ReturnStmt)
+	if !ok || len(rs.Results) != 1 {
+		return nil, false
+	}
+	info := pk.TypesInfo
+	ppk := c.Prog.Pkg("parser")
+	type cat struct {
+		name string
+		val  int64
+	}
+	var cats []cat
+	sc := ppk.Types.Scope()
+	for _, n := range sc.Names() {
+		if k, ok := sc.Lookup(n).(*types.Const); ok && strings.HasPrefix(n, "Category_") {
+			v, _ := constant.Int64Val(constant.ToInt(k.Val()))
+			cats = append(cats, cat{strings.TrimPrefix(n, "Category_"), v})
+		}
+	}
+	okAll := true
+	var num func(e ast.Expr, cur int64) int64
+	num = func(e ast.Expr, cur int64) int64 {
+		e = ast.Unparen(e)
+		if tv, ok := info.Types[e]; ok && tv.Value != nil {
+			v, _ := constant.Int64Val(constant.ToInt(tv.Value))
+			return v
+		}
+		if se, ok := e.(*ast.SelectorExpr); ok && se.Sel.Name == "Category" {
+			return cur
+		}
+		okAll = false
+		return 0
+	}
+	var ev func(e ast.Expr, cur int64) bool
+	ev = func(e ast.Expr, cur int64) bool {
+		switch x := ast.Unparen(e).(type) {
+		case *ast.BinaryExpr:
+			switch x.Op {
+			case token.LAND:
+				return ev(x.X, cur) && ev(x.Y, cur)
+			case token.LOR:
+				return ev(x.X, cur) || ev(x.Y, cur)
+			case token.EQL:
+				return num(x.X, cur) == num(x.Y, cur)
+			case token.NEQ:
+				return num(x.X, cur) != num(x.Y, cur)
+			case token.LSS:
+				return num(x.X, cur) < num(x.Y, cur)
+			case token.LEQ:
+				return num(x.X, cur) <= num(x.Y, cur)
+			case token.GTR:
+				return num(x.X, cur) > num(x.Y, cur)
+			case token.GEQ:
+				return num(x.X, cur) >= num(x.Y, cur)
+			}
+		case *ast.UnaryExpr:
+			if x.Op == token.NOT {
+				return !ev(x.X, cur)
+			}
+		}
+		okAll = false
+		return false
+	}
+	var out []string
+	for _, k := range cats {
+		if ev(rs.Results[0], k.val) {
+			out = append(out, k.name)
+		}
+	}
+	return out, okAll
 }
